@@ -13,6 +13,7 @@ import GqlProofs.ValSpec.PossibleSpreads
 import GqlProofs.ValSpec.UnusedFragments
 import GqlProofs.ValSpec.VarRules
 import GqlProofs.ValSpec.VarPosition
+import GqlProofs.ValSpec.ValuesCorrectFinal
 import GqlProofs.Validate.OverlapSound
 import GqlProofs.Props.C18
 import GqlProofs.Validate.OverlapWitness
@@ -94,23 +95,39 @@ import GqlProofs.Validate.OverlapWitness
                                  ignored), `C08_VariablesInAllowedPosition` / `_harmless` the equivalence
                                  where no usage depends on a location default, `_complete` the direction
                                  that always holds, `_counterexample_location_default` the witness.
+    C08_ValuesOfCorrectType      §5.6.1 / 5.6.2 / 5.6.4 and the `@oneOf` clauses (`Spec.valuesOfCorrectType ∧
+                                 Spec.oneOfVariablesNonNull`): well-parented document, fragment name
+                                 uniqueness, constant defaults, `schemaOK s` (a definition named like a
+                                 built-in scalar is that scalar, scalars declare no fields, input-field types
+                                 resolve to input types), `rootsInput` (declared types of typed values resolve
+                                 to input types), `numLiteralsOK` (numeric literals are lexemes on which the
+                                 library's conversion and the specification's range tests agree — PROVED for
+                                 Int (`int_lexeme_agree`), hypothesis for Float; it also excludes the finding
+                                 below), `leavesWellFormed`, `usePosDistinct`; `_loaded`, `_partial` (no
+                                 `@oneOf`), `_closed`, `_complete`.
   Every hypothesis has a satisfiability example and (where one exists) a kernel-checked
-  counterexample next to the theorem.
+  counterexample next to the theorem or in `GqlProofs/ValSpec/*Ex.lean`.
 
-  Capstone: C08_default_rules_iff_spec_partial — the 25 default rules above run TOGETHER report
-  nothing iff the 26 predicates of `Spec.specVerdicts` they stand for hold (all but field merging
-  §5.3.2 and values of correct type §5.6.1), under `C08Hyps` (parser shape of the document, loader
-  invariants of the schema, and the side conditions named above that are not specification
-  predicates themselves); the masked forms need no hypothesis there.
+  FINDING met on the way (confirmed on the real validator with the driver ops): an IntValue that
+  does not fit a finite double, given where a Float is expected (`{ f(a: 1<309 zeros>) }` with
+  `a: Float`), is accepted by ValuesOfCorrectType — the Int-at-Float branch has no range test — and
+  rejected by `Spec.valuesOfCorrectType` (§3.5.2: a value not representable by finite IEEE 754 is a
+  request error): `ValuesEx.bigInt` in `GqlProofs/ValSpec/ValuesCorrectEx.lean`.
+
+  Capstone: C08_default_rules_iff_spec_partial — the 26 default rules above run TOGETHER report
+  nothing iff the 27 predicates of `Spec.specVerdicts` they stand for hold (all but field merging
+  §5.3.2), under `C08Hyps` (parser shape of the document, loader invariants of the schema, and the
+  side conditions named above that are not specification predicates themselves); the masked forms
+  need no hypothesis there.
 
   NOT finished (the full statement, kept as the goal):
     C08_verdict : Closed s → (validate defaultRules s d = .ok [] ↔ Spec.specValid s d = true)
   It is FALSE for the current tree as stated: the recorded finding about VariablesInAllowedPosition
-  (DESIGN §7 R8e, KNOWN_FINDINGS) is a counterexample; and the hypotheses of `C08Hyps` that are not
-  consequences of `Closed s` + "parsed document" mark inputs on which single rules and their
-  predicates differ while both sides reject (the check compares those under masks).  Rules without
-  an equivalence theorem: ValuesOfCorrectType and OverlappingFieldsCanBeMerged (soundness of every
-  reported conflict is proved below).
+  (DESIGN §7 R8e, KNOWN_FINDINGS) and the Int-at-Float finding above are counterexamples; and the
+  hypotheses of `C08Hyps` that are not consequences of `Closed s` + "parsed document" mark inputs on
+  which single rules and their predicates differ while both sides reject (the check compares those
+  under masks).  The one rule without an equivalence theorem: OverlappingFieldsCanBeMerged
+  (soundness of every reported conflict is proved below).
 -/
 open Gql Gql.Validate Gql.Validate.Rules
 
@@ -1235,6 +1252,104 @@ example : Spec.wellParented schemaInputParent docInputParent = false ∧
 
 end C08
 
+/-! ## ValuesOfCorrectType -/
+section C08
+open Gql Gql.Validate Gql.Validate.Rules
+
+/-- §5.6.1 — schemas without `@oneOf`: ValuesOfCorrectType reports nothing iff every literal at a
+    position with a declared type is coercible to it (and the `@oneOf` clause, which is vacuous here) -/
+theorem C08_ValuesOfCorrectType_partial (s : Schema) (d : QueryDoc)
+    (hwp : Spec.wellParented s d = true) (hschema : schemaOK s = true) (hno : noOneOf s = true)
+    (hroots : rootsInput s d = true) (hnum : numLiteralsOK s d = true) (hwf : leavesWellFormed s d = true) :
+    validate [valuesOfCorrectType] s d = .ok [] ↔
+      (Spec.valuesOfCorrectType s d && Spec.oneOfVariablesNonNull s d) = true := by
+  obtain ⟨evs, hw⟩ := walkDoc_isSome s.view d
+  unfold valuesOfCorrectType
+  rw [validate_stateless_nil s d _ _ evs hw, oneOfVariablesNonNull_of_noOneOf s d hno, Bool.and_true]
+  exact valuesOfCorrectType_iff s d evs hw hwp hschema hroots hnum hwf hno
+
+/-- the same, with the hypotheses on the schema and on the declared types taken from `Gql.Spec.Closed`
+    (which loaded schemas satisfy, `C07`) and from the check's mask `Spec.variablesAreInputTypes` -/
+theorem C08_ValuesOfCorrectType_closed (s : Schema) (d : QueryDoc)
+    (hwp : Spec.wellParented s d = true) (hschema : schemaOK s = true) (hno : noOneOf s = true)
+    (hargs : Gql.Spec.ClosedArgTypes s) (hdargs : Gql.Spec.ClosedDirectiveArgTypes s)
+    (hvars : Spec.variablesAreInputTypes s d = true)
+    (hnum : numLiteralsOK s d = true) (hwf : leavesWellFormed s d = true) :
+    validate [valuesOfCorrectType] s d = .ok [] ↔
+      (Spec.valuesOfCorrectType s d && Spec.oneOfVariablesNonNull s d) = true :=
+  C08_ValuesOfCorrectType_partial s d hwp hschema hno (rootsInput_of_closed s d hargs hdargs hvars) hnum hwf
+
+/-- WITH `@oneOf`: the rule is complete — if it reports nothing then both specification predicates hold
+    (documents with distinct fragment names) -/
+theorem C08_ValuesOfCorrectType_complete (s : Schema) (d : QueryDoc)
+    (hwp : Spec.wellParented s d = true) (hfu : Spec.fragmentNameUniqueness d = true) (hschema : schemaOK s = true)
+    (hroots : rootsInput s d = true) (hnum : numLiteralsOK s d = true)
+    (h : validate [valuesOfCorrectType] s d = .ok []) :
+    (Spec.valuesOfCorrectType s d && Spec.oneOfVariablesNonNull s d) = true := by
+  obtain ⟨evs, hw⟩ := walkDoc_isSome s.view d
+  unfold valuesOfCorrectType at h
+  rw [validate_stateless_nil s d _ _ evs hw] at h
+  rw [Bool.and_eq_true]
+  refine ⟨?_, oneOfVariablesNonNull_of_silent s d evs hw h hwp hfu⟩
+  refine (run_pure_iff s d evs hw hwp hschema hroots hnum).1 (fun e he w exp dfn hp => ?_)
+  have := (step_nil_iff s.view d e w exp dfn hp).1 (h e he)
+  simp only [stepOK, localOK_split, Bool.and_eq_true] at this
+  exact this.1.1
+
+/-- §5.6.1 with `@oneOf`: ValuesOfCorrectType reports nothing iff every literal at a position with a declared
+    type is coercible to it and no `@oneOf` field is given by a variable of a nullable type -/
+theorem C08_ValuesOfCorrectType (s : Schema) (d : QueryDoc)
+    (hwp : Spec.wellParented s d = true) (hfu : Spec.fragmentNameUniqueness d = true) (hcd : constDefaults d = true)
+    (hschema : schemaOK s = true) (hroots : rootsInput s d = true) (hnum : numLiteralsOK s d = true)
+    (hwf : leavesWellFormed s d = true) (hpos : usePosDistinct s d = true) :
+    validate [valuesOfCorrectType] s d = .ok [] ↔
+      (Spec.valuesOfCorrectType s d && Spec.oneOfVariablesNonNull s d) = true := by
+  constructor
+  · exact C08_ValuesOfCorrectType_complete s d hwp hfu hschema hroots hnum
+  · intro h
+    rw [Bool.and_eq_true] at h
+    obtain ⟨evs, hw⟩ := walkDoc_isSome s.view d
+    unfold valuesOfCorrectType
+    rw [validate_stateless_nil s d _ _ evs hw]
+    exact (valuesOfCorrectType_iff_oneOfVar s d evs hw hwp hschema hroots hnum hwf).2
+      ⟨h.1, oneOfVar_of_spec s d evs hw hwp hfu hcd hschema hroots h.1 h.2 hpos⟩
+
+/-- the same for a LOADED schema: `Gql.Spec.Closed` and `Gql.Spec.HasBuiltins` (`C07`), scalar definitions declare no
+    fields, and the check's mask `Spec.variablesAreInputTypes` -/
+theorem C08_ValuesOfCorrectType_loaded (s : Schema) (d : QueryDoc)
+    (hclosed : Gql.Spec.Closed s) (hb : Gql.Spec.HasBuiltins s)
+    (hsf : ∀ p ∈ s.types, p.2.kind = .scalar → p.2.fields = [])
+    (hvars : Spec.variablesAreInputTypes s d = true)
+    (hwp : Spec.wellParented s d = true) (hfu : Spec.fragmentNameUniqueness d = true) (hcd : constDefaults d = true)
+    (hnum : numLiteralsOK s d = true) (hwf : leavesWellFormed s d = true) (hpos : usePosDistinct s d = true) :
+    validate [valuesOfCorrectType] s d = .ok [] ↔
+      (Spec.valuesOfCorrectType s d && Spec.oneOfVariablesNonNull s d) = true :=
+  C08_ValuesOfCorrectType s d hwp hfu hcd (schemaOK_of_closed s hclosed.keys hclosed.fieldTypes hb hsf)
+    (rootsInput_of_closed s d hclosed.argTypes hclosed.directiveArgTypes hvars) hnum hwf hpos
+
+#print axioms C08_ValuesOfCorrectType
+#print axioms C08_ValuesOfCorrectType_loaded
+#print axioms C08_ValuesOfCorrectType_partial
+#print axioms C08_ValuesOfCorrectType_closed
+#print axioms C08_ValuesOfCorrectType_complete
+end C08
+
+/-- FINDING (a verdict-level disagreement on parser-produced input, confirmed on the real validator):
+    `{ f(a: 1<309 zeros>) }` with `f(a: Float): Int` — an IntValue that no finite double represents, given
+    where a Float is expected — is accepted by ValuesOfCorrectType (and by every other rule) while
+    `Spec.valuesOfCorrectType` is false (§3.5.2).  All hypotheses of `C08_ValuesOfCorrectType` except
+    `numLiteralsOK` hold. -/
+theorem C08_ValuesOfCorrectType_counterexample_int_beyond_double :
+    let s := Gql.Validate.ValuesEx.schemaWith (Gql.Validate.Witness.tNamed "Float") []
+    let d := Gql.Validate.ValuesEx.docArg Gql.Validate.ValuesEx.bigInt
+    Gql.Validate.validate [Gql.Validate.Rules.valuesOfCorrectType] s d = .ok [] ∧
+      Gql.Validate.Spec.valuesOfCorrectType s d = false ∧ Gql.Validate.numLiteralsOK s d = false ∧
+      (Gql.Validate.Spec.wellParented s d && Gql.Validate.schemaOK s && Gql.Validate.rootsInput s d &&
+        Gql.Validate.leavesWellFormed s d) = true := by
+  decide +kernel
+
+#print axioms C08_ValuesOfCorrectType_counterexample_int_beyond_double
+
 /-! ## Capstone: the rules with a proved equivalence, run together -/
 section C08
 open Gql Gql.Validate Gql.Validate.Rules
@@ -1262,23 +1377,23 @@ theorem C08_rule_list_silent_iff (rs : List Rule) (s : Schema) (d : QueryDoc) (h
     cases this
 
 /-- the default rules with a proved equivalence, in default order: all but
-    OverlappingFieldsCanBeMerged and ValuesOfCorrectType -/
+    OverlappingFieldsCanBeMerged -/
 def c08Rules : List Rule :=
   [ fieldsOnCorrectType, fragmentsOnCompositeTypes, knownArgumentNames, knownDirectives, knownFragmentNames,
     knownRootType, knownTypeNames, loneAnonymousOperation, maxIntrospectionDepth, noFragmentCycles,
     noUndefinedVariables, noUnusedFragments, noUnusedVariables, possibleFragmentSpreads, providedRequiredArguments,
     scalarLeafs, singleFieldSubscriptions, uniqueArgumentNames, uniqueDirectivesPerLocation, uniqueFragmentNames,
-    uniqueInputFieldNames, uniqueOperationNames, uniqueVariableNames, variablesAreInputTypes,
+    uniqueInputFieldNames, uniqueOperationNames, uniqueVariableNames, valuesOfCorrectType, variablesAreInputTypes,
     variablesInAllowedPosition ]
 
 /-- the specification predicates that are NOT compared by the capstone (their rules have no
     equivalence theorem in `c08Rules`) -/
-def c08Uncovered : List String := ["fieldSelectionMerging", "valuesOfCorrectType"]
+def c08Uncovered : List String := ["fieldSelectionMerging"]
 
-/-- `c08Rules` is the default rule list without the two rules named above, in the same order -/
+/-- `c08Rules` is the default rule list without the rule named above, in the same order -/
 theorem C08_rules_are_default_rules :
     c08Rules.map (·.name) = (defaultRules.map (·.name)).filter fun n =>
-      !([str "OverlappingFieldsCanBeMerged", str "ValuesOfCorrectType"].contains n) := by
+      !([str "OverlappingFieldsCanBeMerged"].contains n) := by
   decide
 
 /-- hypotheses of the capstone that are not specification predicates themselves: the shape of
@@ -1309,11 +1424,23 @@ structure C08Hyps (s : Schema) (d : QueryDoc) : Prop where
   /-- the recorded finding about VariablesInAllowedPosition is not triggered: every variable usage at
       a location WITH a default value is allowed even without that default -/
   defaultedLocations : defaultedLocationsHarmless s d = true
+  /-- ValuesOfCorrectType: built-in scalar names are scalars, scalars declare no fields, input-field
+      types resolve to input types (loaded schemas: `schemaOK_of_closed`) -/
+  schemaOK : schemaOK s = true
+  argTypes : Gql.Spec.ClosedArgTypes s
+  directiveArgTypes : Gql.Spec.ClosedDirectiveArgTypes s
+  /-- numeric literals are IntValue / FloatValue lexemes on which the library's conversion and the
+      specification's range tests agree; in particular no IntValue beyond the finite doubles (finding) -/
+  numLiterals : numLiteralsOK s d = true
+  /-- leaf literals are lexemes of their kind (lexer) -/
+  leaves : leavesWellFormed s d = true
+  /-- two variable usages that start at the same offset are the same usage (parser) -/
+  usePos : usePosDistinct s d = true
 
-/-- **C08, partial verdict**: for the 25 default rules with a proved equivalence, run together
-    (`validate c08Rules`), the validator accepts exactly the documents that satisfy the 26
+/-- **C08, partial verdict**: for the 26 default rules with a proved equivalence, run together
+    (`validate c08Rules`), the validator accepts exactly the documents that satisfy the 27
     specification predicates these rules stand for — all of `Spec.specVerdicts` except field
-    merging (§5.3.2) and values of correct type (§5.6.1).
+    merging (§5.3.2).
     The masked forms of the single-rule theorems need no hypothesis here: their prerequisites are
     members of the same conjunction. -/
 theorem C08_default_rules_iff_spec_partial (s : Schema) (d : QueryDoc) (h : C08Hyps s d) :
@@ -1326,7 +1453,8 @@ theorem C08_default_rules_iff_spec_partial (s : Schema) (d : QueryDoc) (h : C08H
      Spec.fragmentNameUniqueness d = true ∧ Spec.fragmentSpreadTypeExistence s d = true ∧
      Spec.fragmentsOnCompositeTypes s d = true ∧ Spec.fragmentsMustBeUsed d = true ∧
      Spec.fragmentSpreadTargetDefined d = true ∧ Spec.noFragmentCycles d = true ∧
-     Spec.fragmentSpreadIsPossible s d = true ∧ Spec.inputObjectFieldUniqueness s d = true ∧
+     Spec.fragmentSpreadIsPossible s d = true ∧
+     (Spec.valuesOfCorrectType s d && Spec.oneOfVariablesNonNull s d) = true ∧ Spec.inputObjectFieldUniqueness s d = true ∧
      Spec.directivesAreDefined s d = true ∧ Spec.directivesInValidLocations s d = true ∧
      Spec.directivesUniquePerLocation s d = true ∧ Spec.variableUniqueness d = true ∧
      Spec.variablesAreInputTypes s d = true ∧ Spec.allVariableUsesDefined s d = true ∧
@@ -1336,7 +1464,7 @@ theorem C08_default_rules_iff_spec_partial (s : Schema) (d : QueryDoc) (h : C08H
   rw [hspec, C08_rule_list_silent_iff c08Rules s d (by decide)]
   simp only [c08Rules, List.mem_cons, List.not_mem_nil, or_false, forall_eq_or_imp, forall_eq]
   constructor
-  · rintro ⟨r1, r2, r3, r4, r5, r6, r7, r8, r9, r10, r11, r12, r13, r14, r15, r16, r17, r18, r19, r20, r21, r22, r23, r24, r25⟩
+  · rintro ⟨r1, r2, r3, r4, r5, r6, r7, r8, r9, r10, r11, r12, r13, r14, r15, r16, r17, r18, r19, r20, r21, r22, r23, rv, r24, r25⟩
     have lone := (C08_LoneAnonymousOperation s d).1 r8
     have opNames := (C08_UniqueOperationNames s d lone).1 r22
     have varUniq := (C08_UniqueVariableNames s d).1 r23
@@ -1358,6 +1486,8 @@ theorem C08_default_rules_iff_spec_partial (s : Schema) (d : QueryDoc) (h : C08H
       (C08_NoUnusedFragments s d cycles fragUniq).1 r12,
       spreadsDef, cycles,
       (C08_PossibleFragmentSpreads s d h.wellParented h.noEmptyTypeName h.possibleOK).1 r14,
+      (C08_ValuesOfCorrectType s d h.wellParented fragUniq h.constDefaults h.schemaOK
+        (rootsInput_of_closed s d h.argTypes h.directiveArgTypes types.2) h.numLiterals h.leaves h.usePos).1 rv,
       (C08_UniqueInputFieldNames s d h.valuesShaped).1 r21,
       dirs.1, dirs.2,
       (C08_UniqueDirectivesPerLocation s d h.kinds dirs.1).1 r19,
@@ -1368,7 +1498,7 @@ theorem C08_default_rules_iff_spec_partial (s : Schema) (d : QueryDoc) (h : C08H
         (variableTypesNamed_of_exist s d h.noEmptyTypeName (variablesAreInputTypes_exist s d types.2)) h.defaultedLocations).1 r25,
       (C08_MaxIntrospectionDepth s d cycles).1 r9⟩
   · rintro ⟨opNames, lone, root1, rootType, fields, leafs, argNames, argUniq, reqArgs, fragUniq, typeEx, fragComp,
-      fragsUsed, spreadsDef, cycles, possible, inputUniq, dirsDef, dirsLoc, dirsUniq, varUniq, varTypes, varsDef, varsUsed, varsAllowed, depth⟩
+      fragsUsed, spreadsDef, cycles, possible, valuesOK, inputUniq, dirsDef, dirsLoc, dirsUniq, varUniq, varTypes, varsDef, varsUsed, varsAllowed, depth⟩
     have types := (C08_KnownTypeNames_VariablesAreInputTypes s d).2 ⟨typeEx, varTypes⟩
     exact ⟨(C08_FieldsOnCorrectType s d h.wellParented).2 fields,
       (C08_FragmentsOnCompositeTypes s d h.noEmptyTypeName).2 fragComp,
@@ -1393,6 +1523,8 @@ theorem C08_default_rules_iff_spec_partial (s : Schema) (d : QueryDoc) (h : C08H
       (C08_UniqueInputFieldNames s d h.valuesShaped).2 inputUniq,
       (C08_UniqueOperationNames s d lone).2 opNames,
       (C08_UniqueVariableNames s d).2 varUniq,
+      (C08_ValuesOfCorrectType s d h.wellParented fragUniq h.constDefaults h.schemaOK
+        (rootsInput_of_closed s d h.argTypes h.directiveArgTypes varTypes) h.numLiterals h.leaves h.usePos).2 valuesOK,
       types.2,
       (C08_VariablesInAllowedPosition_harmless s d h.wellParented fragUniq h.constDefaults h.inputPositions
         (variableTypesNamed_of_exist s d h.noEmptyTypeName (variablesAreInputTypes_exist s d varTypes)) h.defaultedLocations).2 varsAllowed⟩
@@ -1436,7 +1568,9 @@ theorem CapstoneWitness.hypsV : C08Hyps CapstoneWitness.schema CapstoneWitness.d
     noEmptyTypeName := by decide +kernel, possibleOK := by decide +kernel, subscriptionRoot := by decide +kernel,
     valuesShaped := by decide +kernel, constDefaults := by decide +kernel, typeConds := by decide +kernel,
     selectRoot := by decide +kernel, rootKeys := by decide +kernel, inputPositions := by decide +kernel,
-    defaultedLocations := by decide +kernel }
+    defaultedLocations := by decide +kernel, schemaOK := by decide +kernel, argTypes := by decide +kernel,
+    directiveArgTypes := by decide +kernel, numLiterals := by decide +kernel, leaves := by decide +kernel,
+    usePos := by decide +kernel }
 example : ((Spec.specVerdicts CapstoneWitness.schema CapstoneWitness.docV).filter
     (fun p => !c08Uncovered.contains p.1)).all (·.2) = true := by decide +kernel
 example : validate c08Rules CapstoneWitness.schema CapstoneWitness.docV = .ok [] :=
@@ -1447,7 +1581,9 @@ theorem CapstoneWitness.hypsW : C08Hyps CapstoneWitness.schema CapstoneWitness.d
     noEmptyTypeName := by decide +kernel, possibleOK := by decide +kernel, subscriptionRoot := by decide +kernel,
     valuesShaped := by decide +kernel, constDefaults := by decide +kernel, typeConds := by decide +kernel,
     selectRoot := by decide +kernel, rootKeys := by decide +kernel, inputPositions := by decide +kernel,
-    defaultedLocations := by decide +kernel }
+    defaultedLocations := by decide +kernel, schemaOK := by decide +kernel, argTypes := by decide +kernel,
+    directiveArgTypes := by decide +kernel, numLiterals := by decide +kernel, leaves := by decide +kernel,
+    usePos := by decide +kernel }
 example : ((Spec.specVerdicts CapstoneWitness.schema CapstoneWitness.docW).filter
     (fun p => !c08Uncovered.contains p.1)).all (·.2) = false := by decide +kernel
 example : validate c08Rules CapstoneWitness.schema CapstoneWitness.docW ≠ .ok [] := fun h =>
